@@ -235,3 +235,121 @@ Proof.
       replace (W - (n - idx))%Z with idx by (unfold n, dft_size; lia).
       apply tri_idx_range_iff; try assumption; lia.
 Qed.
+
+(** ** exact contents of the assignment loop; even symmetry of a real bank's full response *)
+(* if every assignment to cell j stores x, the cell holds x as soon as it is assigned at all *)
+Lemma fold_same_value (ws : list (Z * R)) (j : Z) (x : R) : forall a : R,
+  (forall iv, In iv ws -> fst iv = j -> snd iv = x) ->
+  fold_left (fun acc iv => if (fst iv =? j)%Z then snd iv else acc) ws a =
+  if existsb (fun iv => (fst iv =? j)%Z) ws then x else a.
+Proof.
+  induction ws as [|[i v] ws IH]; intros a H; simpl; [reflexivity|].
+  assert (Hrest : forall iv, In iv ws -> fst iv = j -> snd iv = x) by (intros iv Hin; apply H; right; exact Hin).
+  rewrite IH by exact Hrest.
+  destruct (Z.eqb_spec i j) as [E|E]; simpl.
+  - assert (Hv : v = x) by (apply (H (i, v)); [left; reflexivity | exact E]). subst v.
+    destruct (existsb _ ws); reflexivity.
+  - reflexivity.
+Qed.
+
+Lemma existsb_fr_direct val mirror n lo hi j : (lo <= j < hi)%Z ->
+  existsb (fun iv : Z * R => (fst iv =? j)%Z) (fr_writes val mirror n lo hi) = true.
+Proof.
+  intros Hj. apply existsb_exists. exists (j, val j). split; [|simpl; lia].
+  unfold fr_writes. apply in_flat_map. exists j. split; [apply In_Zrange; exact Hj | left; reflexivity].
+Qed.
+
+Lemma existsb_fr_mirror val n lo hi idx : (lo <= idx < hi)%Z ->
+  existsb (fun iv : Z * R => (fst iv =? neg_index n idx)%Z) (fr_writes val true n lo hi) = true.
+Proof.
+  intros Hj. apply existsb_exists. exists (neg_index n idx, val idx). split; [|simpl; lia].
+  unfold fr_writes. apply in_flat_map. exists idx. split; [apply In_Zrange; exact Hj | right; left; reflexivity].
+Qed.
+
+(* bins at most half way: 0 <= lo, 2 (hi - 1) <= n *)
+Lemma fr_direct_value_l : forall val mirror n lo hi j, (0 <= lo)%Z -> (2 * (hi - 1) <= n)%Z ->
+  (lo <= j < hi)%Z ->
+  read_writes (fr_writes val mirror n lo hi) j = val j.
+Proof.
+  intros val mirror n lo hi j Hlo Hhi Hj. unfold read_writes.
+  rewrite (fold_same_value _ j (val j)).
+  - rewrite existsb_fr_direct by exact Hj. reflexivity.
+  - intros iv Hin Hfst. apply In_fr_writes in Hin. destruct Hin as [idx [Hr [Hv [Hi|[Hm Hi]]]]].
+    + rewrite Hv. f_equal. lia.
+    + rewrite Hv. f_equal. unfold neg_index in Hi. destruct (Z.eqb_spec idx 0); lia.
+Qed.
+
+Lemma fr_mirror_value_l : forall val n lo hi idx, (0 <= lo)%Z -> (2 * (hi - 1) <= n)%Z ->
+  (lo <= idx < hi)%Z ->
+  read_writes (fr_writes val true n lo hi) (neg_index n idx) = val idx.
+Proof.
+  intros val n lo hi idx Hlo Hhi Hj. unfold read_writes.
+  rewrite (fold_same_value _ (neg_index n idx) (val idx)).
+  - rewrite existsb_fr_mirror by exact Hj. reflexivity.
+  - intros iv Hin Hfst. apply In_fr_writes in Hin. destruct Hin as [i2 [Hr [Hv [Hi|[Hm Hi]]]]].
+    + rewrite Hv. f_equal. unfold neg_index in *. destruct (Z.eqb_spec idx 0); lia.
+    + rewrite Hv. f_equal. unfold neg_index in *.
+      destruct (Z.eqb_spec idx 0); destruct (Z.eqb_spec i2 0); lia.
+Qed.
+
+(* Hermitian (here: even) symmetry of the full response of a real bank *)
+Lemma fr_real_bank_symmetric_l : forall val n lo hi j, (0 <= lo)%Z -> (2 * (hi - 1) <= n)%Z ->
+  (0 < j < n)%Z ->
+  read_writes (fr_writes val true n lo hi) (n - j) = read_writes (fr_writes val true n lo hi) j.
+Proof.
+  intros val n lo hi j Hlo Hhi Hj.
+  destruct (Z_lt_le_dec j hi) as [H1|H1]; [destruct (Z_lt_le_dec j lo) as [H0|H0]|].
+  - (* j below the range: n - j above it *)
+    rewrite (fr_zero_outside_l val true n lo hi j); [|lia|].
+    + rewrite (fr_zero_outside_l val true n lo hi (n - j)); [reflexivity | lia |].
+      intros _ idx Hr. unfold neg_index. destruct (Z.eqb_spec idx 0); lia.
+    + intros _ idx Hr. unfold neg_index. destruct (Z.eqb_spec idx 0); lia.
+  - (* j in the range *)
+    rewrite (fr_direct_value_l val true n lo hi j) by lia.
+    replace (n - j)%Z with (neg_index n j) by (unfold neg_index; destruct (Z.eqb_spec j 0); lia).
+    apply fr_mirror_value_l; lia.
+  - (* j above the range: is n - j in it? *)
+    destruct (Z_lt_le_dec (n - j) hi) as [H2|H2]; [destruct (Z_lt_le_dec (n - j) lo) as [H3|H3]|].
+    + rewrite (fr_zero_outside_l val true n lo hi (n - j)); [|lia|].
+      * rewrite (fr_zero_outside_l val true n lo hi j); [reflexivity | lia |].
+        intros _ idx Hr. unfold neg_index. destruct (Z.eqb_spec idx 0); lia.
+      * intros _ idx Hr. unfold neg_index. destruct (Z.eqb_spec idx 0); lia.
+    + rewrite (fr_direct_value_l val true n lo hi (n - j)) by lia.
+      replace j with (neg_index n (n - j)) at 2 by (unfold neg_index; destruct (Z.eqb_spec (n - j) 0); lia).
+      symmetry. apply fr_mirror_value_l; lia.
+    + rewrite (fr_zero_outside_l val true n lo hi (n - j)); [|lia|].
+      * rewrite (fr_zero_outside_l val true n lo hi j); [reflexivity | lia |].
+        intros _ idx Hr. unfold neg_index. destruct (Z.eqb_spec idx 0); lia.
+      * intros _ idx Hr. unfold neg_index. destruct (Z.eqb_spec idx 0); lia.
+Qed.
+
+Lemma tri_right_idx_half right rate W : 0 < rate -> (0 < W)%Z -> 0 <= right <= rate / 2 ->
+  (2 * tri_right_idx right rate W <= W)%Z.
+Proof.
+  intros Hr HW [H0 H1]. unfold tri_right_idx.
+  assert (HWr : 0 < IZR W) by (apply (IZR_lt 0); exact HW).
+  assert (Hnn : 0 <= IZR W * right / rate).
+  { apply Rmult_le_pos; [apply Rmult_le_pos; lra | left; apply Rinv_0_lt_compat; lra]. }
+  rewrite (Ztrunc_floor _ Hnn).
+  assert (Hle : IZR W * right / rate <= IZR W / 2).
+  { apply Rmult_le_reg_r with rate; [lra|].
+    replace (IZR W * right / rate * rate) with (IZR W * right) by (field; lra). nra. }
+  pose proof (Zfloor_lb (IZR W * right / rate)) as Hf.
+  assert (IZR (2 * Zfloor (IZR W * right / rate)) <= IZR W) by (rewrite mult_IZR; lra).
+  apply le_IZR in H. exact H.
+Qed.
+
+(* the full (half = false) response of a real triangular / Fbank filter is even: X[W - j] = X[j] *)
+Lemma fr_loop_real_symmetric_l val left right rate W j :
+  0 < rate -> (0 < W)%Z -> 0 <= left -> 0 <= right <= rate / 2 -> (0 < j < W)%Z ->
+  let ws := fr_writes val (negb false && negb false) (dft_size W false)
+                      (tri_left_idx left rate W) (Z.min (dft_size W false) (tri_right_idx right rate W + 1)) in
+  read_writes ws (W - j) = read_writes ws j.
+Proof.
+  intros Hr HW Hl Hrt Hj. cbv zeta. unfold dft_size. cbn [negb andb].
+  apply fr_real_bank_symmetric_l; try exact Hj.
+  - unfold tri_left_idx. rewrite <- (Zceil_IZR 0). apply Zceil_le.
+    assert (0 < IZR W) by (apply (IZR_lt 0); exact HW).
+    apply Rmult_le_pos; [apply Rmult_le_pos; lra | left; apply Rinv_0_lt_compat; lra].
+  - pose proof (tri_right_idx_half right rate W Hr HW Hrt). lia.
+Qed.
